@@ -132,7 +132,15 @@ def check_sweep(case):
         gpgstub.install(RS, stub)
         fn, call, original, expected, nsig = _setup(case, d)
         # ---- fault-free reference run -----------------------------------------------------------------------------
-        ref = faults.run(call, PKG, fn, keep_lines=True)
+        gran = case.get("granularity", "line")
+        if gran == "opcode":
+            # CPython 3.12 starts delivering opcode events for a code object only from the tracing session after the one that
+            # asked for them: two throw-away runs make the event numbering of the reference run and of the fault runs agree
+            for _ in range(2):
+                faults.run(call, PKG, fn, granularity=gran)
+                with open(fn, "wb") as f:
+                    f.write(original)
+        ref = faults.run(call, PKG, fn, keep_lines=True, granularity=gran)
         if ref.outcome != "return":
             raise Violation("%s failed on well-formed input without any injected fault: %s %s" % (case["proc"], ref.outcome, str(ref.exc)[:100]),
                             bucket="signing fails on valid input")
@@ -145,7 +153,7 @@ def check_sweep(case):
             raise Violation("%s opens / replaces the target for writing %d times (a single final write is expected)"
                             % (case["proc"], len(opens)), bucket="multiple writes of the target")
         w = opens[0][0]
-        if case["proc"] in ("repodata", "cli-sign-artifacts"):
+        if case["proc"] in ("repodata", "cli-sign-artifacts") and gran == "line":
             before = [e for e in signs if e[0] <= w]
             if len(before) != nsig or len(signs) != nsig:
                 raise Violation("%s: %d of %d signatures had been computed when the output file was opened for writing (%d computed later)"
@@ -158,13 +166,15 @@ def check_sweep(case):
         close = [e for e in ref.log if e[1] == "close-w"]
         w_end = close[0][0] if close else w
         first_sig = signs[0][0] if signs else (w if case["proc"].startswith("repo") or case["proc"].startswith("cli-sign") else 0)
+        if gran == "opcode":
+            first_sig = w // 2      # (no signing observer at opcode granularity: roughly the second half of the run)
         # ---- one run per line event ------------------------------------------------------------------------------------
         N = ref.events
         for k in range(1, N + 1):
             with open(fn, "wb") as f:
                 f.write(original)
             stub.calls.clear()
-            tr = faults.run(call, PKG, fn, fault_at=k)
+            tr = faults.run(call, PKG, fn, fault_at=k, granularity=gran)
             sweeps += 1
             data = open(fn, "rb").read()
             cls = _classify(data, original, expected, case)
@@ -192,7 +202,7 @@ def check_sweep(case):
     finally:
         gpgstub.uninstall(RS)
         shutil.rmtree(d, ignore_errors=True)
-    return {"nontrivial": after_first_sig > 0, "labels": ["proc=" + case["proc"], "events=%d+" % (10 * (ref.events // 10))],
+    return {"nontrivial": after_first_sig > 0, "labels": ["proc=" + case["proc"], "granularity=" + gran, "events=%d+" % (100 * (ref.events // 100))],
             "count": {"fault_runs": sweeps, "faults_after_first_signature_before_output": after_first_sig, "line_events": ref.events}}
 
 
@@ -206,6 +216,20 @@ def _sweep_cases(draw):
     doc = draw(st.one_of(GM.signed_parts([keys.pub_hex(keys.POOL[0])]), G.package_record, G.payloads))
     pre = draw(st.lists(st.tuples(st.one_of(G.strings, keys.ghost_keys), st.sampled_from([{"signature": "ab" * 64}, 5, "x"])), max_size=2))
     return {"proc": proc, "seed": seed, "doc": doc, "pre": [list(p) for p in pre]}
+
+
+@st.composite
+def _sweep_cases_opcode(draw):
+    c = draw(_sweep_cases())
+    if "doc" in c and c["proc"] in ("repodata", "cli-sign-artifacts"):
+        # keep opcode sweeps affordable: at most three artifacts
+        for sec in ("packages", "packages.conda"):
+            if isinstance(c["doc"].get(sec), dict):
+                c["doc"][sec] = dict(list(c["doc"][sec].items())[:2])
+        if not c["doc"].get("packages") and not c["doc"].get("packages.conda"):
+            c["doc"]["packages"] = {"a-1.0-0.tar.bz2": {"name": "a", "depends": []}}
+    c["granularity"] = "opcode"
+    return c
 
 
 # ---- malformed inputs and signer faults: the call fails, the file stays ------------------------------------------------------------
@@ -367,6 +391,8 @@ def check_bad(case):
 UNITS = [
     Unit("sweep", check_sweep, strategy=_sweep_cases, quick=48, thorough=1600, shards_quick=16,
          doc="exception injected at every executed line event of the signing procedures, per generated document"),
+    Unit("sweep_opcode", check_sweep, strategy=_sweep_cases_opcode, quick=8, thorough=160, shards_quick=8,
+         doc="the same sweep at bytecode-instruction granularity (every opcode executed in repository code is a fault point)"),
     Unit("malformed", check_bad, strategy=_bad_cases, quick=400, thorough=12000, shards_quick=8,
          doc="malformed inputs, wrong-typed arguments and signer faults: the call fails and the file is byte-identical"),
     _cfgunit.unit_under_config(PROPERTY, 'malformed', exclude=()),
